@@ -42,12 +42,22 @@ def mk_fun(av, scalar=False):
         terms.append("(" + expr + ")")
     if len(terms) == 1:
         body = terms[0]
-    else:
-        body = "_torch.cat([%s], dim=-1)" % ", ".join(terms)
+    else:     # works for batches (N,1) and for plain numbers (partial evaluation with floats)
+        body = "_cat(%s)" % ", ".join(terms)
     src = "def f(%s):\n    return %s\n" % (", ".join(vs), body)
-    ns = {"_torch": torch}
+    ns = {"_torch": torch, "_cat": _cat}
     exec(src, ns)
     return ns["f"]
+
+
+def _col(x):
+    t = torch.as_tensor(x, dtype=torch.float32)
+    return t.reshape(-1, 1) if t.dim() < 2 else t
+
+
+def _cat(*xs):
+    cols = torch.broadcast_tensors(*[_col(x) for x in xs])
+    return torch.cat(cols, dim=-1)
 
 
 def space_of(v):
